@@ -73,6 +73,7 @@ class Frag:
     consts: Sequence[str] = ()        # names bound once at the top level of the function (`NAME = <expr>`): read from the source
     rename: Dict[str, str] = field(default_factory=dict)   # `ast.unparse(sub-expression)` -> parameter name (e.g. "self._size": "n")
     elt: Optional[int] = None         # assign mode: the value is a comprehension; translate its element (index into an inner list)
+                                      # block mode: `tuple(<elt> for v in <iterable>)` is read elementwise (see Tr.comp_elt)
     arg_of: Optional[str] = None      # assign mode: only assignments whose value is a call of this function count; translate its
                                       # first argument (or the keyword argument `kwarg`)
     kwarg: Optional[str] = None
@@ -248,6 +249,11 @@ class Tr:
 
     def cond(self, n: ast.AST, env) -> str:
         """a boolean expression as a decidable Prop (no None tests in here: those are handled by `branch`)"""
+        if self.f.rename and isinstance(n, ast.Compare) and ast.unparse(n) in self.f.rename:
+            v = env[self.f.rename[ast.unparse(n)]]          # a whole test named by a Bool parameter, e.g. `self.axes() is Axes.GRID`
+            if v.kind != "bool":
+                raise Unsupported(f"test `{ast.unparse(n)}` is renamed to a {v.kind}")
+            return v.lean
         if isinstance(n, ast.BoolOp):
             parts = [self.cond(v, env) for v in n.values]
             return "(" + (" ∧ " if isinstance(n.op, ast.And) else " ∨ ").join(parts) + ")"
@@ -281,6 +287,9 @@ class Tr:
             return self.expr(n.args[0], env, want)
         if isinstance(fn, ast.Attribute) and fn.attr in self.f.idfuncs:
             return self.expr(fn.value, env, want)
+        if (self.f.elt is not None and self.f.mode == "block" and isinstance(fn, ast.Name) and fn.id in ("tuple", "list")
+                and len(n.args) == 1 and isinstance(n.args[0], (ast.GeneratorExp, ast.ListComp))):
+            return self.comp_elt(n.args[0], env, want)
         if isinstance(fn, ast.Name):
             if fn.id == "abs" and len(n.args) == 1:
                 t, k = self.expr(n.args[0], env, want)
@@ -325,6 +334,21 @@ class Tr:
                 self.mutated.add(fn.value.id)
             return self.method(recv, fn.attr.rstrip("_") if inplace else fn.attr, n.args, kws, env, want)
         raise Unsupported(f"call {ast.unparse(fn)[:40]}")
+
+    def comp_elt(self, comp, env, want) -> Tuple[str, str]:
+        """block mode with `elt`: `tuple(<elt> for v in <iterable>)` is read ELEMENTWISE as `<elt>`, where the loop variable
+        `v` must be a parameter and `rename` must map the source text of `<iterable>` to `v` (so that a change of what is
+        iterated over is noticed, too)."""
+        gens = comp.generators
+        if len(gens) != 1 or gens[0].ifs or not isinstance(gens[0].target, ast.Name):
+            raise Unsupported(f"comprehension {ast.unparse(comp)[:60]}")
+        var, it = gens[0].target.id, ast.unparse(gens[0].iter)
+        if self.f.rename.get(it) != var or var not in env:
+            raise Unsupported(f"comprehension over `{it}` with element `{var}` (expected rename {{'<iterable>': '{var}'}})")
+        elt = comp.elt
+        if isinstance(elt, (ast.Tuple, ast.List)):
+            elt = elt.elts[self.f.elt]
+        return self.expr(elt, env, want)
 
     def method(self, obj: Tuple[str, str], name: str, args, kws, env, want) -> Tuple[str, str]:
         t, k = obj
